@@ -205,7 +205,7 @@ PROPS["C20"] = dict(
           ">= 2 blocks and >= 2 distinct inserted hashes. xxh64 case = (segment list, seed, misalignment); non-trivial: length >= 32 and not a "
           "multiple of 32. Distinct = FNV-1a-64 of the serialised case."),
     assumptions=["values are hashed as their PLAIN encoding (little-endian fixed width / raw bytes) with seed 0"],
-    engines=[pbt("c20_bloom", libs=["rapidcheck", "xxhash"], quick=dict(cases=10000, size=100, enum=1, procs=4), thorough=dict(cases=25000, size=200, enum=2, procs=16))],
+    engines=[pbt("c20_bloom", libs=["rapidcheck", "xxhash"], quick=dict(cases=10000, size=100, enum=1, procs=4), thorough=dict(cases=80000, size=200, enum=2, procs=16))],
     min_evaluations=dict(quick=8000, thorough=200000),
 )
 
@@ -228,7 +228,7 @@ PROPS["C15"] = dict(
           "match < p <= limit, non-overlapping memcpy, wrapping prefix sums, fixed-width unpackers get exactly N*width/8 input bytes. Non-trivial: count not a "
           "multiple of the variant's byte lane count and (misaligned start or end flush against the guard page)."),
     assumptions=["the scalar definitions in harness/c15_simd.cpp are the kernels' specification (they mirror dispatch.c's scalar fallbacks, which are themselves checked under the 'none' mask)"],
-    engines=[pbt("c15_simd", variant="prod", quick=dict(cases=15000, size=100, enum=1, procs=2), thorough=dict(cases=30000, size=100, enum=2, procs=4)),
+    engines=[pbt("c15_simd", variant="prod", quick=dict(cases=15000, size=100, enum=1, procs=2), thorough=dict(cases=250000, size=100, enum=2, procs=6)),
              # the same kernels built with the VBMI code paths enabled (what -march=native gives on this class of CPU)
              pbt("c15_simd", variant="prodvbmi", name="c15_simd_vbmi_build", quick=dict(cases=6000, size=100, enum=1, procs=1), thorough=dict(cases=20000, size=100, enum=2, procs=2))] +
             [pbt("c15_simd", variant="prod", name="c15_dispatch_%d" % i, env={"CARQUET_VERIF_CPU_CAP": m},
@@ -273,7 +273,7 @@ PROPS["C17"] = dict(
     rule=("tree case = (schema tree, per-leaf level entries and values, I/O mode); non-trivial: depth >= 2 with at least one OPTIONAL or REPEATED interior node. "
           "builder case = list of (type, repetition, type length, logical type) columns; non-trivial: >= 64 columns (growth past the initial capacity)."),
     assumptions=["leaf names used for find_column are unique in the schema"],
-    engines=[pbt("c17_schema", libs=["rapidcheck", "snappy", "lz4"], quick=dict(cases=2500, size=60, enum=1, procs=4), thorough=dict(cases=8000, size=100, enum=2, procs=16, timeout=7200))],
+    engines=[pbt("c17_schema", libs=["rapidcheck", "snappy", "lz4"], quick=dict(cases=2500, size=60, enum=1, procs=4), thorough=dict(cases=25000, size=100, enum=2, procs=16, timeout=7200))],
     min_evaluations=dict(quick=5000, thorough=150000),
 )
 
@@ -294,7 +294,7 @@ PROPS["C02"] = dict(
           "more rows than batch_size and a page whose row count is not a multiple of batch_size."),
     assumptions=["read_batch(k) may return fewer than k rows ('up to'); only content, order, totals, skip = min(n, remaining) and remaining() are asserted",
                  "level buffers are omitted only for REQUIRED columns", "the null bitmap polarity is not imposed, only required to be the same everywhere"],
-    engines=[pbt("c02_histories", libs=["rapidcheck", "snappy", "lz4"], quick=dict(cases=2500, size=60, enum=1, procs=6), thorough=dict(cases=12000, size=100, enum=2, procs=16)),
+    engines=[pbt("c02_histories", libs=["rapidcheck", "snappy", "lz4"], quick=dict(cases=2500, size=60, enum=1, procs=6), thorough=dict(cases=50000, size=100, enum=2, procs=16)),
              # the same histories with harness and library built the way clients build them (gcc -O2, no sanitizer): what the
              # public header promises the optimiser (pure / const / nonnull attributes) takes effect on the calling code
              pbt("c02_histories", variant="prod", libs=["rapidcheck", "snappy", "lz4"], name="c02_histories_o2", quick=dict(cases=2500, size=60, procs=2), thorough=dict(cases=12000, size=100, procs=4))],
@@ -315,7 +315,7 @@ PROPS["C03"] = dict(
     rule=("case = (file, history ops, batch size, projection, verify_checksums). Non-trivial: some chunk has >= 2 pages, the file mixes zero-copy-eligible "
           "(REQUIRED, fixed-width, uncompressed, PLAIN) and non-eligible columns, and batch_size exceeds the smallest page."),
     assumptions=["transcripts contain only observable results (return values, levels, dense values, bitmaps, statuses), never addresses"],
-    engines=[pbt("c03_iomodes", libs=["rapidcheck", "snappy", "lz4"], quick=dict(cases=1500, size=60, procs=8), thorough=dict(cases=8000, size=100, procs=16))],
+    engines=[pbt("c03_iomodes", libs=["rapidcheck", "snappy", "lz4"], quick=dict(cases=1500, size=60, procs=8), thorough=dict(cases=30000, size=100, procs=16))],
     min_evaluations=dict(quick=2500, thorough=100000),
 )
 
@@ -337,7 +337,7 @@ PROPS["C16"] = dict(
           "min or max. helpers: non-trivial = >= 2 distinct values. Distinct = FNV-1a-64 of the serialised case."),
     assumptions=["value order: signed for INT32/INT64, IEEE for FLOAT/DOUBLE, unsigned lexicographic for BYTE_ARRAY/FIXED_LEN_BYTE_ARRAY",
                  "builder bounds are accepted under IEEE comparison ignoring NaN or under the total order 'NaN greatest, -0 = +0' that the builder documents"],
-    engines=[pbt("c16_stats", libs=["rapidcheck", "snappy", "lz4"], quick=dict(cases=3000, size=60, procs=6), thorough=dict(cases=15000, size=100, procs=16))],
+    engines=[pbt("c16_stats", libs=["rapidcheck", "snappy", "lz4"], quick=dict(cases=3000, size=60, procs=6), thorough=dict(cases=40000, size=100, procs=16))],
     min_evaluations=dict(quick=6000, thorough=150000),
 )
 
@@ -435,7 +435,7 @@ PROPS["C14"] = dict(
     rule=("damage case = (file, read batch size, seed); evaluations count damaged reads (file x damage x mode). Non-trivial: the file has a damaged page that is not the first "
           "page of its chunk, or a dictionary page, or a compressed body. crc_fn case = (bytes, alignment, cut points); non-trivial: length >= 8 and not a multiple of 8."),
     assumptions=["only pages that carry a CRC are damaged (carquet's writer always writes one)", "damage is confined to page bodies; headers and footer are out of this property's scope"],
-    engines=[pbt("c14_crc", libs=["rapidcheck", "snappy", "lz4"], quick=dict(cases=120, size=60, enum=1, procs=8), thorough=dict(cases=600, size=100, enum=2, procs=16))],
+    engines=[pbt("c14_crc", libs=["rapidcheck", "snappy", "lz4"], quick=dict(cases=120, size=60, enum=1, procs=8), thorough=dict(cases=3000, size=100, enum=2, procs=16))],
     min_evaluations=dict(quick=100000, thorough=2000000),
 )
 
@@ -455,7 +455,7 @@ PROPS["C18"] = dict(
     rule=("evaluations count (file, fault point[, mode]) executions. Non-trivial: prefixes - a cut inside the footer, between footer and length or inside the trailing magic; sink - a "
           "failure within the last 4096 bytes under full buffering (absorbed by stdio until close); stdio - at least 4 stream operations; abort - at least 2 calls."),
     assumptions=["open_buffer is never given size 0 with a NULL pointer; a zero-length prefix is passed as a valid pointer of size 0"],
-    engines=[pbt("c18_truncation", libs=["rapidcheck", "snappy", "lz4"], ldflags=["-Wl,--wrap=fwrite,--wrap=fflush,--wrap=fclose"], quick=dict(cases=200, size=60, procs=8), thorough=dict(cases=400, size=100, procs=16))],
+    engines=[pbt("c18_truncation", libs=["rapidcheck", "snappy", "lz4"], ldflags=["-Wl,--wrap=fwrite,--wrap=fflush,--wrap=fclose"], quick=dict(cases=200, size=60, procs=8), thorough=dict(cases=4000, size=100, procs=16))],
     min_evaluations=dict(quick=20000, thorough=400000),
 )
 
@@ -475,6 +475,6 @@ PROPS["C19"] = dict(
     rule=("evaluations count (scenario, k) runs in which the k-th allocation really failed. Non-trivial: a scenario in which some failing request lies behind the third "
           "allocation (i.e. after the handle was created)."),
     assumptions=["only allocation requests made by carquet's own objects are failed; zlib/zstd/libc internals are not touched"],
-    engines=[pbt("c19_alloc", libs=["rapidcheck", "snappy", "lz4"], ldflags=["-Wl,--wrap=malloc,--wrap=calloc,--wrap=realloc,--wrap=strdup"], quick=dict(cases=80, size=60, procs=8), thorough=dict(cases=800, size=100, procs=16))],
+    engines=[pbt("c19_alloc", libs=["rapidcheck", "snappy", "lz4"], ldflags=["-Wl,--wrap=malloc,--wrap=calloc,--wrap=realloc,--wrap=strdup"], quick=dict(cases=80, size=60, procs=8), thorough=dict(cases=6000, size=100, procs=16))],
     min_evaluations=dict(quick=5000, thorough=150000),
 )
